@@ -447,3 +447,56 @@ def run(ctx) -> None:
     _check_scatter(ctx)
     _check_window(ctx)
     _check_winshape(ctx)
+
+
+# ---- added after the seeded change C10-seed4: the random stream of CrystalPotential must not depend on the window
+_inner_run_c10 = run
+
+
+def run(ctx) -> None:  # noqa: F811
+    import ast as _ast
+
+    from ..cfg import CFG as _CFG
+    from ..model import call_name as _cn, norm_text as _nt, walk_no_nested as _walk
+
+    ctx.rule("R-RNGSTREAM", "CrystalPotential.generate_slices draws the unit for a repetition from the seeded generator "
+             "on *every* pass through the repetition loop: no path from the loop header back to the header (continue, "
+             "skipped arm) may avoid the draw, otherwise the unit drawn for repetition k of a window differs from the "
+             "unit the full slice sequence uses there")
+    f = ctx.repo.method("abtem.potentials.iam", "CrystalPotential", "generate_slices")
+    cfg = _CFG(f.node)
+    draws = []
+    for n in cfg.nodes:
+        if n.ast is None or n.kind not in ("stmt",):
+            continue
+        for c in _walk(n.ast):
+            if isinstance(c, _ast.Call) and isinstance(c.func, _ast.Attribute) and c.func.attr in (
+                    "integers", "choice", "randint", "random", "permutation", "shuffle", "normal", "uniform") and \
+                    isinstance(c.func.value, _ast.Name) and c.func.value.id in ("rng", "random_state", "generator"):
+                draws.append((n, c))
+    ctx.require(len(draws) >= 1, "CrystalPotential.generate_slices: no draw from the seeded generator found")
+    for n, c in draws:
+        if not n.loops:
+            ctx.info("R-RNGSTREAM", f"{f.qualname}:{_nt(c)[:40]}", f.loc(c), "draw outside any loop")
+            continue
+        header = n.loops[-1]
+        skip = cfg.paths_avoiding(header, header, {n.idx})
+        # paths_avoiding explores all successors; restrict to paths that stay inside the loop body
+        body = cfg.loop_body_nodes(header)
+        seen, stack, found = set(), [s for s in cfg.nodes[header].succ if s in body], False
+        while stack:
+            x = stack.pop()
+            if x == n.idx or x in seen:
+                continue
+            seen.add(x)
+            for s2 in cfg.nodes[x].succ:
+                if s2 == header:
+                    found = True
+                elif s2 in body:
+                    stack.append(s2)
+        ctx.check(not found, "R-RNGSTREAM", f"{f.qualname}:{_nt(c)[:40]}", f.loc(c),
+                  "the draw is executed on every pass through the repetition loop",
+                  f"a path through the repetition loop reaches the next repetition without executing `{_nt(c)[:50]}`: the "
+                  "generator is then one draw behind and later repetitions of a window get different units than in the "
+                  "full sequence", key_detail="skipped-draw")
+    _inner_run_c10(ctx)
